@@ -885,8 +885,11 @@ func run(c *vf.Ctx) {
 	two1, three1, two2 := scenarios(c)
 	var st concStats
 	t0 = time.Now()
+	vrt.ReleasePoints = true // 2 threads x 1 op: also let the other thread run right after every unlock
 	concurrent(c, two1, 1000, "2x1", &st)
+	vrt.ReleasePoints = c.Thorough()
 	concurrent(c, three1, 1000, "3x1", &st)
+	vrt.ReleasePoints = false
 	concurrent(c, two2, 1000, "2x2", &st)
 	c.Set("wall_concurrent_s", time.Since(t0).Seconds())
 	c.Set("schedules", st.executions)
@@ -914,9 +917,9 @@ func racePass(c *vf.Ctx) {
 	if _, err := os.Stat(bin); err != nil {
 		c.Fatalf("race-pass binary missing: %v", err)
 	}
-	iters := "300"
+	iters := "1500"
 	if c.Thorough() {
-		iters = "3000"
+		iters = "15000"
 	}
 	cmd := exec.Command(bin, iters)
 	cmd.Env = append(os.Environ(), "GORACE=halt_on_error=1 exitcode=66")
